@@ -21,13 +21,25 @@ static char g_sock[108];
 static char g_desc[512];
 static int g_errno;
 
-int pam_get_user(pam_handle_t *pamh, const char **user, const char *prompt) { *user = g_user; return PAM_SUCCESS; }
-int pam_get_item(const pam_handle_t *pamh, int item_type, const void **item) { *item = (item_type == PAM_AUTHTOK) ? g_pw : NULL; return PAM_SUCCESS; }
-int pam_set_item(pam_handle_t *pamh, int item_type, const void *item) { return PAM_SUCCESS; }
+/* scenario of the PAM library side (entry-level scenarios; defaults = the socket-level ones) */
+static char g_args[512]; static int g_have_args;
+static char g_authtok_kind[16] = "present", g_prompt_kind[16] = "ok";
+static int g_set_item_ok = 1, g_get_user_ok = 1;
+static char *g_authtok;   /* heap copy owned by "libpam": the module must neither write nor free it */
+
+int pam_get_user(pam_handle_t *pamh, const char **user, const char *prompt) { if (!g_get_user_ok) return PAM_SERVICE_ERR; *user = g_user; return PAM_SUCCESS; }
+int pam_get_item(const pam_handle_t *pamh, int item_type, const void **item) {
+  if (!strcmp(g_authtok_kind, "err")) return 4;
+  *item = (item_type == PAM_AUTHTOK && !strcmp(g_authtok_kind, "present")) ? g_authtok : NULL; return PAM_SUCCESS; }
+int pam_set_item(pam_handle_t *pamh, int item_type, const void *item) { return g_set_item_ok ? PAM_SUCCESS : PAM_BUF_ERR; }
 const char *pam_strerror(pam_handle_t *pamh, int errnum) { return "err"; }
 void pam_syslog(const pam_handle_t *pamh, int priority, const char *fmt, ...) {}
 void pam_vsyslog(const pam_handle_t *pamh, int priority, const char *fmt, va_list args) {}
-int pam_prompt(pam_handle_t *pamh, int style, char **response, const char *fmt, ...) { *response = strdup(g_pw); return PAM_SUCCESS; }
+int pam_prompt(pam_handle_t *pamh, int style, char **response, const char *fmt, ...) {
+  if (!strcmp(g_prompt_kind, "err")) return PAM_CONV_ERR;
+  if (!strcmp(g_prompt_kind, "again")) return PAM_CONV_AGAIN;
+  if (!strcmp(g_prompt_kind, "null")) { *response = NULL; return PAM_SUCCESS; }
+  *response = strdup(g_pw); return PAM_SUCCESS; }
 int pam_sm_authenticate(pam_handle_t *pamh, int flags, int argc, const char **argv);
 
 static size_t unhex(const char *h, unsigned char *out) {
@@ -69,6 +81,11 @@ int main(int argc, char **argv) {
     if (!strncmp(line, "password", 8)) { g_pw[0] = 0; continue; }
     if (sscanf(line, "reply %299999s", hex) == 1) { g_reply_len = unhex(hex, g_reply); continue; }
     if (!strncmp(line, "desc ", 5)) { strncpy(g_desc, line + 5, sizeof g_desc - 1); continue; }
+    if (!strncmp(line, "args", 4)) { g_have_args = 1; strncpy(g_args, line[4] ? line + 5 : "", sizeof g_args - 1); g_args[strcspn(g_args, "\n")] = 0; continue; }
+    if (sscanf(line, "authtok %15s", g_authtok_kind) == 1) continue;
+    if (sscanf(line, "prompt %15s", g_prompt_kind) == 1) continue;
+    if (sscanf(line, "set_item %d", &g_set_item_ok) == 1) continue;
+    if (sscanf(line, "get_user %d", &g_get_user_ok) == 1) continue;
   }
   snprintf(g_sock, sizeof g_sock, "/tmp/vp-llsym-%d.sock", getpid());
   unlink(g_sock);
@@ -78,10 +95,21 @@ int main(int argc, char **argv) {
   if (serve) { bind(ls, (struct sockaddr *)&a, sizeof a); listen(ls, 1); }
   pthread_t th; if (serve) pthread_create(&th, NULL, server, &ls);
   char sockarg[200]; snprintf(sockarg, sizeof sockarg, "sock=%s", g_sock);
-  const char *args[] = {sockarg, "timeout=2", "use_first_pass"};
+  const char *args[40] = {sockarg, "timeout=2", "use_first_pass"};
+  int nargs = 3;
+  if (g_have_args) {   /* entry-level scenario: its own options, after our socket (a later sock= of the scenario wins, as in the module) */
+    nargs = 1;
+    if (!strstr(g_args, "timeout=")) args[nargs++] = "timeout=2";
+    for (char *t = strtok(g_args, " "); t && nargs < 39; t = strtok(NULL, " "))
+      if (strncmp(t, "sock=", 5)) args[nargs++] = t;
+  }
+  g_authtok = strdup(g_pw);
   errno = g_errno;
-  int ret = pam_sm_authenticate(NULL, 0, 3, args);
-  if (serve) pthread_join(th, NULL);
+  int ret = pam_sm_authenticate((pam_handle_t *)&g_errno, 0, nargs, args);
+  /* libpam still uses its item afterwards: ASan reports a module that freed it; a module that wiped it is seen here */
+  printf("AUTHTOK_INTACT %d\n", !strcmp(g_authtok, g_pw));
+  free(g_authtok);
+  if (serve) { shutdown(ls, SHUT_RDWR); pthread_join(th, NULL); }   /* a module that never connected leaves the server in accept() */
   unlink(g_sock);
   /* what a correct decision would be */
   int reply_ok = 0;
